@@ -1297,6 +1297,7 @@ func (e *Engine) doIndex(st *State, fr *Frame, x *ssa.Index) Val {
 		r := strByte(v[0], idx)
 		if !r.IsConst() {
 			e.fact(st, And(Le(IntC(0), r), Le(r, IntC(255))))
+			st.strIdx = append(st.strIdx, strIdxRec{v[0], idx, r})
 		}
 		return Val{r}
 	}
@@ -1321,6 +1322,7 @@ func (e *Engine) doLookup(st *State, fr *Frame, x *ssa.Lookup) Val {
 		r := strByte(s, idx)
 		if !r.IsConst() {
 			e.fact(st, And(Le(IntC(0), r), Le(r, IntC(255))))
+			st.strIdx = append(st.strIdx, strIdxRec{s, idx, r})
 		}
 		return Val{r}
 	}
@@ -1543,6 +1545,10 @@ func (e *Engine) doNext(st *State, fr *Frame, x *ssa.Next) Val {
 		// ASCII bytes decode to themselves with width 1, and only they decode to ASCII runes
 		e.fact(st, Implies(Lt(b, IntC(128)), And(Eq(r, b), Eq(w, IntC(1)))))
 		e.fact(st, Implies(Lt(r, IntC(128)), And(Eq(r, b), Eq(w, IntC(1)))))
+		// a rune of width > 1 is a valid encoding: its remaining bytes are continuation bytes
+		for k := int64(1); k <= 3; k++ {
+			e.fact(st, Implies(And(more, Lt(IntC(k), w)), Le(IntC(128), strByte(it.sref, Add(pos, IntC(k))))))
+		}
 		// consuming one rune extends the consumed prefix by that rune's text
 		e.fact(st, Implies(more, Eq(App("strcat", SInt, App("substr", SInt, it.sref, IntC(0), pos), App("runestr", SInt, r)),
 			App("substr", SInt, it.sref, IntC(0), Add(pos, w)))))
